@@ -3,6 +3,7 @@
 package c08
 
 import (
+	"bytes"
 	"fmt"
 	"math"
 	"math/bits"
@@ -84,13 +85,18 @@ type Case struct {
 
 var widths = []int{1, 2, 4, 8}
 
+// negEnds: ends below -1. Only -1 stands for the end of a; by the statement's formula lim = min(end, words(a), words(b))
+// any other negative end IS the limit, so the window is empty and the result is end itself, whatever from is.
+var negEnds = []int{-2, -3, -8, math.MinInt32, math.MinInt}
+
 var checker = &vk.Checker[Case]{
 	ID: "C08",
 	Rule: "strings over all 256 byte values x width in {1,2,4,8}: FromStr length and every word vs bit-level extraction, Get at every index, ToStr(FromStr(s)) == s; ToStr on in-range word slices of any length (partial last byte) vs MSB-first packing; " +
-		"FirstDiff(a,b,from,end) on pairs {equal, common prefix + divergence inside a byte, one a prefix of the other, unrelated} x from in [0,max words+2] x end in {-1} u [0,max words+3] (also the largest ints) vs the smallest differing index below lim = min(end or words(a), words(a), words(b)); FromStrs/ToStrs element-wise against the caller's (pristine) list, ToStrs also on lists of word slices with incomplete last bytes. " +
+		"FirstDiff(a,b,from,end) on pairs {equal, common prefix + divergence inside a byte, one a prefix of the other, unrelated} x from in [0,max words+2] x end in {-1} u [0,max words+3] (also the largest ints; one window in 24 and the grids (the exhaustive one: -2 and MinInt) also ends below -1: -2,-3,-8,MinInt32,MinInt - only -1 stands for the end of a, so there lim = end and the result is end) vs the smallest differing index below lim = min(end or words(a), words(a), words(b)); FromStrs/ToStrs element-wise against the caller's (pristine) list, ToStrs also on lists of word slices with incomplete last bytes. " +
 		"Sizes: drawn byte by byte up to 40 bytes (one in eight up to 600; thorough 2000), word slices up to 80 (one in four up to 2000), pairs up to 12 bytes (one in four up to 200), lists up to 6 elements (one in four up to 200, elements up to 12 bytes, one in eight up to 300); besides that SIZED cases whose content is a function of (length, seed, style): the number of words / bytes / list elements is log-uniform " +
 		"(every octave equally likely, a quarter of them at 2^k-1, 2^k, 2^k+1) up to 2^18 words for FromStr/ToStr (thorough 2^22; the sweep 2^17), 2^15 bytes per FirstDiff argument (thorough 2^19, difference steered to anywhere incl. the last word), 2^14 list elements (thorough 2^17; long elements of 13..1000 bytes for none / all / every 4th / some / the last / the first element). " +
-		"Grid: all 1-byte strings x widths x indexes; all pairs of 1-byte strings x widths x all windows; a sweep over sizes 2^k-1, 2^k, 2^k+1 and two more sizes per octave for FromStr/ToStr/FirstDiff (difference in the last word) and for the lists (each list size under every GOMAXPROCS setting in the process that varies it). Last: Get / FirstDiff on a string of 2^28 bytes, also against a twin with one inverted bit. " +
+		"Grid: all 1-byte strings x widths x indexes; all pairs of 1-byte strings x widths x all windows; a sweep over sizes 2^k-1, 2^k, 2^k+1 and two more sizes per octave for FromStr/ToStr/FirstDiff (difference in the last word) and for the lists (each list size under every GOMAXPROCS setting in the process that varies it). Last: Get / FirstDiff on a string of 2^28 bytes, also against twins with one inverted bit (every twin is a string of its own whose bytes never change once it exists). " +
+		"Results after the call: FromStr / FromStrs are called a second time on the same argument, the caller then writes into every slice of the first result (spare capacity and content, element by element: the elements not yet written must still read right), the second result and the strings ToStr/ToStrs made from the first still read right and a third call is right; ToStr's / ToStrs' word slices are overwritten after the call (ToStr is called again on the other words at the same address) and the returned strings re-read; every returned slice and string (a sample of long lists / long results) stays under watch and is read again after each of the next 8 cases. " +
 		"Arguments reach the library as private copies (empty slices as nil half of the time, strings and byte slices at odd addresses inside larger buffers half of the time); oracles read the pristine case. " +
 		"Non-trivial: str/tostr with length >= 2 and a byte >= 0x80 (tostr: a partial last byte or width 8); firstdiff with a non-empty common word prefix, a later difference and a window that cuts or contains it; lists of >= 2 elements (tostrs: with an incomplete element). Distinct by hash of the case.",
 	Check:    func(c Case) *vk.Failure { return check(c.expand()) },
@@ -333,6 +339,92 @@ func packWords(ws []byte, n int) string {
 	return string(out)
 }
 
+// ---------------------------------------------------------------- results after the call
+//
+// What the library returns belongs to the caller: a returned word slice may be written to (content and spare
+// capacity) without any effect on other results or on later calls, and a returned string keeps reading the same
+// whatever happens to the []byte it was made from. The checks below write into returned slices, call again, and
+// put results under watch (checker.Keep) so that they are read again after the next cases.
+
+// keep is checker.Keep (set in init: the checker's Check refers to the functions that use it).
+var keep func(func() string)
+
+func init() { keep = checker.Keep }
+
+// trash overwrites a slice the library returned, as the caller that owns it may: every byte of the content
+// changes, the spare capacity gets a pattern.
+func trash(b []byte) {
+	for i := range b {
+		b[i] ^= 0xff
+	}
+	vk.ScribbleBytes(b)
+}
+
+// same compares fully up to 8 KiB; beyond that the first and the last 2 KiB and 64 places in between (the
+// watch closures run after every later case, so they have to be cheap).
+func same[T, U ~string | ~[]byte](a T, b U) bool {
+	if len(a) != len(b) {
+		return false
+	}
+	if len(a) <= 8192 {
+		return string(a) == string(b)
+	}
+	l := len(a)
+	if string(a[:2048]) != string(b[:2048]) || string(a[l-2048:]) != string(b[l-2048:]) {
+		return false
+	}
+	for k := 1; k < 64; k++ {
+		if i := 2048 + (l-4096)/64*k; a[i] != b[i] {
+			return false
+		}
+	}
+	return true
+}
+
+// sampleIdx: the indexes of a list that a watch closure looks at (all of them up to 48; the first and last 16
+// and 16 in between otherwise).
+func sampleIdx(k int) []int {
+	out := make([]int, 0, 48)
+	if k <= 48 {
+		for i := 0; i < k; i++ {
+			out = append(out, i)
+		}
+		return out
+	}
+	for i := 0; i < 16; i++ {
+		out = append(out, i)
+	}
+	for j := 1; j <= 16; j++ {
+		out = append(out, 16+(k-32)/17*j)
+	}
+	for i := k - 16; i < k; i++ {
+		out = append(out, i)
+	}
+	return out
+}
+
+// keepBytes puts a returned slice (with its spare capacity) under watch: it must keep reading as it does now.
+func keepBytes(what string, b []byte) {
+	full := b[:cap(b)]
+	snap := append([]byte(nil), full...)
+	keep(func() string {
+		if !same(full, snap) {
+			return what + " has changed"
+		}
+		return ""
+	})
+}
+
+// keepString puts a returned string under watch.
+func keepString(what string, got, want string) {
+	keep(func() string {
+		if !same(got, want) {
+			return what + " has changed"
+		}
+		return ""
+	})
+}
+
 func checkStr(bw bitword.Interface, n int, s string, sum uint64) *vk.Failure {
 	arg := vk.OddString(s, sum) // the library's copy (at an odd address half of the time); the oracle reads s
 	var ws []byte
@@ -375,6 +467,35 @@ func checkStr(bw bitword.Interface, n int, s string, sum uint64) *vk.Failure {
 	if arg != s {
 		return vk.Failf("str-mutates", "BitWord[%d]: the string argument %s reads %s after FromStr/Get", n, hx(s), hx(arg))
 	}
+	// a second call with the same string; then the caller writes into the first result (content and spare
+	// capacity): the second result, the string made from the first, and a third call are unaffected
+	var ws2, ws3 []byte
+	if f := vk.TryF(func() string { return fmt.Sprintf("BitWord[%d].FromStr(%s) (second call)", n, hx(s)) }, func() { ws2 = bw.FromStr(arg) }); f != nil {
+		return f
+	}
+	if !bytes.Equal(ws2, want) {
+		return vk.Failf("fromstr-again", "BitWord[%d].FromStr(%s), called a second time, = %s, want %s", n, hx(s), hx(ws2), hx(want))
+	}
+	trash(ws)
+	if !bytes.Equal(ws2, want) {
+		return vk.Failf("results-share-memory", "BitWord[%d].FromStr(%s) twice: writing into the first result changed the second (it now reads %s, want %s)", n, hx(s), hx(ws2), hx(want))
+	}
+	if back != s {
+		return vk.Failf("result-aliases-argument", "BitWord[%d].ToStr(ws) with ws = FromStr(%s): the returned string changed when ws was overwritten afterwards (it now reads %s)", n, hx(s), hx(back))
+	}
+	arg3 := arg
+	if arg3 != s { // the first result may share memory with the argument: a pristine string then
+		arg3 = string(append([]byte(nil), s...))
+	}
+	if f := vk.TryF(func() string { return fmt.Sprintf("BitWord[%d].FromStr(%s) (third call)", n, hx(s)) }, func() { ws3 = bw.FromStr(arg3) }); f != nil {
+		return f
+	}
+	if !bytes.Equal(ws3, want) {
+		return vk.Failf("fromstr-after-write", "BitWord[%d].FromStr(%s), called again after the caller wrote into the slice an earlier call had returned, = %s, want %s", n, hx(s), hx(ws3), hx(want))
+	}
+	keepBytes(fmt.Sprintf("the slice BitWord[%d].FromStr(%s) returned (and the caller then overwrote)", n, hx(s)), ws)
+	keepBytes(fmt.Sprintf("the result of BitWord[%d].FromStr(%s)", n, hx(s)), ws3)
+	keepString(fmt.Sprintf("the string BitWord[%d].ToStr(FromStr(%s)) returned", n, hx(s)), back, s)
 	return nil
 }
 
@@ -408,7 +529,7 @@ func checkMaxStr(bw bitword.Interface, n, back, cut int) *vk.Failure {
 	if from < 0 {
 		return nil
 	}
-	for _, end := range []int{-1, nwb, nwb - 1, nwa, nwa + 5, math.MaxInt} {
+	for _, end := range []int{-1, nwb, nwb - 1, nwa, nwa + 5, math.MaxInt, -2, math.MinInt} {
 		lim := end
 		if end == -1 {
 			lim = nwa
@@ -428,7 +549,8 @@ func checkMaxStr(bw bitword.Interface, n, back, cut int) *vk.Failure {
 	return nil
 }
 
-// checkMaxTwin: FirstDiff of the 2^28-byte string against a private twin whose bit `flip` (counted from the end, 1 = the
+// checkMaxTwin: FirstDiff of the 2^28-byte string against a twin (a string of its own per flip, never modified: strings are
+// immutable, a library may remember them by address) whose bit `flip` (counted from the end, 1 = the
 // last bit) is inverted: the only difference sits at word (8*2^28 - flip)/n, beyond int32 for width 1. from starts
 // `back` words before it; both argument orders.
 func checkMaxTwin(bw bitword.Interface, n, back int, flip int64) *vk.Failure {
@@ -443,7 +565,7 @@ func checkMaxTwin(bw bitword.Interface, n, back int, flip int64) *vk.Failure {
 		if from < 0 {
 			continue
 		}
-		for _, end := range []int{-1, d, d + 1, nw, nw + 3, math.MaxInt} {
+		for _, end := range []int{-1, d, d + 1, nw, nw + 3, math.MaxInt, -2} {
 			lim := end
 			if end == -1 {
 				lim = nw
@@ -527,6 +649,31 @@ func check(c Case) *vk.Failure {
 		} else if !tail() {
 			return vk.Failf("argument-spare-capacity-written", "BitWord[%d].ToStr(%d words): bytes around the argument (inside the buffer it was carved from) were written", c.N, len(c.Words))
 		}
+		// the caller goes on using its slice: other (in-range) words at the same address. The string returned
+		// before keeps its value; a second call packs the new words.
+		mask := byte(1<<uint(c.N) - 1)
+		for i := range ws {
+			ws[i] = (ws[i] + 1 + byte(i)) & mask
+		}
+		words2 := append([]byte(nil), ws...)
+		if want := packWords(c.Words, c.N); got != want {
+			return vk.Failf("result-aliases-argument", "BitWord[%d].ToStr(%s) (%d words): the returned string changed when the caller overwrote the word slice after the call: it now reads %s, want %s", c.N, hx(c.Words), len(c.Words), hx(got), hx(want))
+		}
+		var got2 string
+		if f := vk.TryF(func() string {
+			return fmt.Sprintf("BitWord[%d].ToStr(%s) (the same slice with other words)", c.N, hx(words2))
+		}, func() { got2 = bw.ToStr(ws) }); f != nil {
+			return f
+		}
+		want2 := packWords(words2, c.N)
+		if got2 != want2 {
+			return vk.Failf("tostr-again", "BitWord[%d].ToStr(%s) (%d words, in the slice that held %s for the call before) = %s, want %s", c.N, hx(words2), len(words2), hx(c.Words), hx(got2), hx(want2))
+		}
+		if want := packWords(c.Words, c.N); got != want {
+			return vk.Failf("result-changed-by-next-call", "BitWord[%d].ToStr(%s) (%d words): the returned string changed when ToStr was called again: it now reads %s, want %s", c.N, hx(c.Words), len(c.Words), hx(got), hx(want))
+		}
+		keepString(fmt.Sprintf("the string BitWord[%d].ToStr(%s) returned", c.N, hx(c.Words)), got, packWords(c.Words, c.N))
+		keepString(fmt.Sprintf("the string BitWord[%d].ToStr(%s) returned", c.N, hx(words2)), got2, want2)
 		return nil
 	case "firstdiff":
 		a, b := string(c.A), string(c.B) // pristine; the library gets its own copies
@@ -566,8 +713,11 @@ func check(c Case) *vk.Failure {
 		if len(got) != len(c.List) {
 			return vk.Failf("tostrs-len", "ToStrs of %d word slices returned %d strings", len(c.List), len(got))
 		}
+		wants := make([]string, len(c.List))
 		for i := range c.List {
-			if want := packWords(c.List[i], c.N); got[i] != want {
+			want := packWords(c.List[i], c.N)
+			wants[i] = want
+			if got[i] != want {
 				return vk.Failf("tostrs-element", "BitWord[%d].ToStrs(%s)[%d] = %s, want %s (element-wise ToStr of %s)", c.N, hxs(c.List), i, hx(got[i]), hx(want), hx(c.List[i]))
 			}
 			if string(in[i]) != string(c.List[i]) {
@@ -577,6 +727,30 @@ func check(c Case) *vk.Failure {
 				return vk.Failf("argument-spare-capacity-written", "BitWord[%d].ToStrs: bytes around word slice %d (inside the buffer it was carved from) were written", c.N, i)
 			}
 		}
+		// the caller overwrites its word slices: the strings returned before keep their values
+		for i := range in {
+			for k := range in[i] {
+				in[i][k] ^= 0xff
+			}
+		}
+		for i := range wants {
+			if got[i] != wants[i] {
+				return vk.Failf("result-aliases-argument", "BitWord[%d].ToStrs(%s)[%d]: the returned string changed when the caller overwrote word slice %d after the call: it now reads %s, want %s", c.N, hxs(c.List), i, i, hx(got[i]), hx(wants[i]))
+			}
+		}
+		idx := sampleIdx(len(got))
+		what := fmt.Sprintf("BitWord[%d].ToStrs(%s)", c.N, hxs(c.List))
+		keep(func() string {
+			if len(got) != len(wants) {
+				return "the length of the list returned by " + what + " has changed"
+			}
+			for _, i := range idx {
+				if !same(got[i], wants[i]) {
+					return fmt.Sprintf("string %d returned by %s has changed", i, what)
+				}
+			}
+			return ""
+		})
 		return nil
 	}
 	// plural forms are element-wise. The reference is the pristine list of the case, not the slice the library was given.
@@ -589,12 +763,16 @@ func check(c Case) *vk.Failure {
 	if len(wss) != len(pristine) {
 		return vk.Failf("plural-len", "FromStrs of %d strings returned %d elements", len(pristine), len(wss))
 	}
+	want := make([][]byte, len(pristine)) // the words of every element, from the oracle
 	for i, s := range pristine {
 		if len(wss[i]) != nwords(s, c.N) {
 			return vk.Failf("fromstrs", "BitWord[%d].FromStrs(%s)[%d] has %d words, want %d (element-wise FromStr of %s)", c.N, hxs(c.List), i, len(wss[i]), nwords(s, c.N), hx(s))
 		}
+		want[i] = make([]byte, len(wss[i]))
 		for k := range wss[i] {
-			if w := wordOf(s, c.N, k); wss[i][k] != w {
+			w := wordOf(s, c.N, k)
+			want[i][k] = w
+			if wss[i][k] != w {
 				return vk.Failf("fromstrs", "BitWord[%d].FromStrs(%s)[%d][%d] = %d, want %d (element-wise FromStr of %s)", c.N, hxs(c.List), i, k, wss[i][k], w, hx(s))
 			}
 		}
@@ -631,6 +809,93 @@ func check(c Case) *vk.Failure {
 			return vk.Failf("tostrs", "BitWord[%d].ToStrs(FromStrs(%s))[%d] = %s, want %s", c.N, hxs(c.List), i, hx(back[i]), hx(s))
 		}
 	}
+	// The results belong to the caller. A second call on the same list; then the caller writes into every element of
+	// the first result, one after the other (first the spare capacities, then the contents): the elements not yet
+	// written still read right (no two of them share memory, equal strings included), and so do the second result,
+	// the strings ToStrs made from the first, and a third call.
+	same2 := func(call string, r [][]byte) *vk.Failure {
+		if len(r) != len(want) {
+			return vk.Failf("plural-len", "FromStrs of %d strings (%s) returned %d elements", len(want), call, len(r))
+		}
+		for i := range want {
+			if !bytes.Equal(r[i], want[i]) {
+				return vk.Failf("fromstrs-again", "BitWord[%d].FromStrs(%s)[%d] (%s) reads %s, want %s (element-wise FromStr of %s)", c.N, hxs(c.List), i, call, hx(r[i]), hx(want[i]), hx(pristine[i]))
+			}
+		}
+		return nil
+	}
+	var wss2, wss3 [][]byte
+	if f := vk.TryF(func() string { return fmt.Sprintf("BitWord[%d].FromStrs(%s) (second call)", c.N, hxs(c.List)) }, func() { wss2 = bw.FromStrs(strs) }); f != nil {
+		return f
+	}
+	if f := same2("second call", wss2); f != nil {
+		return f
+	}
+	for i := range wss {
+		vk.ScribbleBytes(wss[i])
+	}
+	for i := range wss {
+		if !bytes.Equal(wss[i], want[i]) {
+			return vk.Failf("results-share-memory", "BitWord[%d].FromStrs(%s): element %d changed (it now reads %s, want %s) when the caller wrote into the spare capacity of the elements or into the elements before it: elements of the result share memory", c.N, hxs(c.List), i, hx(wss[i]), hx(want[i]))
+		}
+		for k := range wss[i] {
+			wss[i][k] ^= 0xff
+		}
+	}
+	if f := same2("second call, after the caller wrote into the result of the first call", wss2); f != nil {
+		f.Kind = "results-share-memory"
+		return f
+	}
+	for i, s := range pristine {
+		if back[i] != s {
+			return vk.Failf("result-aliases-argument", "BitWord[%d].ToStrs(FromStrs(%s))[%d]: the returned string changed when the word slices were overwritten after the call: it now reads %s, want %s", c.N, hxs(c.List), i, hx(back[i]), hx(s))
+		}
+	}
+	strs3 := strs
+	for i, s := range pristine {
+		if strs3[i] != s { // a result may share memory with the argument: a pristine list then
+			strs3 = vk.ShapeStrings(pristine, sum+1)
+			break
+		}
+	}
+	if f := vk.TryF(func() string { return fmt.Sprintf("BitWord[%d].FromStrs(%s) (third call)", c.N, hxs(c.List)) }, func() { wss3 = bw.FromStrs(strs3) }); f != nil {
+		return f
+	}
+	if f := same2("called again after the caller wrote into the result of an earlier call", wss3); f != nil {
+		return f
+	}
+	// under watch: a sample of the elements of the first (overwritten) and the third result, and of the strings
+	idx := sampleIdx(len(pristine))
+	what := fmt.Sprintf("BitWord[%d].FromStrs(%s)", c.N, hxs(c.List))
+	type kept struct {
+		i          int
+		full, snap []byte // an element of the first result, as the caller left it
+		third      []byte
+		str        string
+	}
+	ks := make([]kept, 0, len(idx))
+	for _, i := range idx {
+		full := wss[i][:cap(wss[i])]
+		ks = append(ks, kept{i: i, full: full, snap: append([]byte(nil), full...), third: wss3[i], str: back[i]})
+	}
+	n1, n3, nb := len(wss), len(wss3), len(back)
+	keep(func() string {
+		if len(wss) != n1 || len(wss3) != n3 || len(back) != nb {
+			return "the length of a list returned by " + what + " / ToStrs has changed"
+		}
+		for _, k := range ks {
+			if !same(k.full, k.snap) {
+				return fmt.Sprintf("element %d returned by %s (and then overwritten by the caller) has changed", k.i, what)
+			}
+			if !same(k.third, want[k.i]) {
+				return fmt.Sprintf("element %d returned by %s has changed", k.i, what)
+			}
+			if !same(k.str, pristine[k.i]) {
+				return fmt.Sprintf("string %d returned by ToStrs(FromStrs(%s)) has changed", k.i, hxs(c.List))
+			}
+		}
+		return ""
+	})
 	return nil
 }
 
@@ -697,6 +962,8 @@ func classify(c Case) (bool, []string) {
 		minw := 8 * min(len(c.A), len(c.B)) / c.N
 		differs := full < minw
 		switch {
+		case c.End < -1:
+			labels = append(labels, "end:below-1")
 		case c.End == -1:
 			labels = append(labels, "end:-1")
 		case c.End > minw:
@@ -953,6 +1220,8 @@ func genCase(t *rapid.T) Case {
 		}
 	} else if gen.Chance(t, 1, 24, "extfromalone") { // a huge from with an ordinary end (or -1)
 		from = ext[gen.Uniform(t, len(ext), "extfrom3")]
+	} else if gen.Chance(t, 1, 24, "negend") { // an end below -1: the limit is end itself
+		end = negEnds[gen.Uniform(t, len(negEnds), "negend2")]
 	}
 	// steer some windows to the interesting place (more often when the arguments are large)
 	steerDen := 3
@@ -965,7 +1234,7 @@ func genCase(t *rapid.T) Case {
 		if gen.Chance(t, 1, 4, "from0") {
 			from = 0
 		}
-		if end != -1 {
+		if end >= 0 {
 			end = d + gen.Uniform(t, 4, "de") - 1
 			if end < 0 {
 				end = 0
@@ -1011,7 +1280,11 @@ func TestGrid(t *testing.T) {
 			for y := 0; y < 256; y++ {
 				a, b := string([]byte{byte(x)}), string([]byte{byte(y)})
 				for from := 0; from <= nw+1; from++ {
-					for end := -1; end <= nw+1; end++ {
+					for ei := -2; ei <= nw+2; ei++ {
+						end := ei - 1 // -1 .. nw+1, before that two ends below -1 (the others: grid-extreme below, TestProp)
+						if ei < 0 {
+							end = []int{-2, math.MinInt}[-ei-1]
+						}
 						evals++
 						want := wantFirstDiff(a, b, n, from, end)
 						var got int
@@ -1037,9 +1310,9 @@ func TestGrid(t *testing.T) {
 	}
 	for _, n := range widths { // the largest values the argument types allow, on a few pairs
 		for _, pair := range [][2]string{{"aa", "ab"}, {"", "x"}, {"\xff\x00", "\xff\x00"}, {"abc", "ab"}} {
-			for _, end := range []int{math.MaxInt, math.MaxInt - 1, math.MaxInt - 3, math.MaxInt - 7, math.MaxInt32, 1 << 40, -1, 3} {
+			for _, end := range []int{math.MaxInt, math.MaxInt - 1, math.MaxInt - 3, math.MaxInt - 7, math.MaxInt32, 1 << 40, -1, 3, -2, -3, -8, math.MinInt32, math.MinInt32 - 1, math.MinInt + 1, math.MinInt} {
 				for _, from := range []int{0, 1, 9, math.MaxInt, math.MaxInt - 8, math.MaxInt32 + 1} {
-					if end <= 3 && from <= 9 {
+					if end >= -1 && end <= 3 && from <= 9 {
 						continue // ordinary windows: the exhaustive part and TestProp
 					}
 					checker.Run(t, Case{Op: "firstdiff", N: n, A: vk.Hex(pair[0]), B: vk.Hex(pair[1]), From: from, End: end, Class: "grid-extreme"})
@@ -1048,7 +1321,7 @@ func TestGrid(t *testing.T) {
 		}
 	}
 	vk.CountConstructed(evals, nontriv, "grid-firstdiff")
-	vk.MarkExhaustive("all 1-byte strings x widths x indexes; all pairs of 1-byte strings x widths x all windows from in [0,words+1], end in [-1,words+1]")
+	vk.MarkExhaustive("all 1-byte strings x widths x indexes; all pairs of 1-byte strings x widths x all windows from in [0,words+1], end in [-1,words+1] and {-2,MinInt}")
 
 	// the window-placing helper against the oracle (it never judges the library, but it decides where windows go)
 	for i := uint64(0); i < 3000; i++ {
@@ -1089,7 +1362,7 @@ func sweepSizedGrid(t *testing.T) {
 			base := (w + per - 1) / per
 			pos := (w-1)*n + (i%2)*(n-1)
 			g := Spec{Len: base + i%3, LenB: base + []int{0, 1, 6, 0, 2}[i%5], Seed: seed, Style: styleOf(i), Rel: 1, Pos: pos}
-			for _, win := range [][2]int{{0, -1}, {w - 2, w + 1}, {w - 1, w}, {w, -1}, {0, w - 1}, {w - 1, math.MaxInt}} {
+			for _, win := range [][2]int{{0, -1}, {w - 2, w + 1}, {w - 1, w}, {w, -1}, {0, w - 1}, {w - 1, math.MaxInt}, {w - 1, -2 - i%2*6}} {
 				gg := g
 				checker.Run(t, Case{Op: "firstdiff", N: n, Gen: &gg, From: max(win[0], 0), End: win[1], Class: "sweep"})
 			}
@@ -1127,6 +1400,7 @@ func sweepSizedGrid(t *testing.T) {
 			checker.Run(t, Case{Op: "tostr", N: n, Gen: &Spec{Len: w, Seed: seed}, Class: "sweep-procs"})
 			la := (w + per - 1) / per
 			checker.Run(t, Case{Op: "firstdiff", N: n, Gen: &Spec{Len: la, LenB: la + 1, Seed: seed, Rel: 1, Pos: (w-1)*n + n - 1}, From: 0, End: -1, Class: "sweep-procs"})
+			checker.Run(t, Case{Op: "firstdiff", N: n, Gen: &Spec{Len: la, LenB: la + 1, Seed: seed, Rel: 1, Pos: (w-1)*n + n - 1}, From: 0, End: -2, Class: "sweep-procs"})
 		})
 	}
 }
@@ -1143,7 +1417,7 @@ func TestLast(t *testing.T) {
 			}
 		}
 	}
-	// ... against a twin with one inverted bit: the last bit, the first bit of the last byte, a bit in a byte that is zero
+	// ... against twins with one inverted bit (five strings of their own, 1.25 GiB of mostly untouched address space): the last bit, the first bit of the last byte, a bit in a byte that is zero
 	for _, n := range widths {
 		for _, flip := range []int64{1, 8, 3, 8*7 - 3, 8*200 + 5} {
 			for _, back := range []int{0, 1, 9, 1000} {
